@@ -1,7 +1,8 @@
 """C03, PBF part — hostile PBF input never causes memory errors, aborts or hangs (DESIGN.md §3 C03).
 
-proof (dispatcher): lean/Osmium/Props/C03Pbf.lean — `pbf_reads_in_bounds`, `pbf_decoded_objects_wf`
-(+ the embedded-NUL witness F13a).
+proof (dispatcher): lean/Osmium/Props/C03Pbf.lean — `pbf_decoder_total`, `pbf_strings_come_from_table`,
+`pbf_decoded_objects_wf` (full since da64936 rejects NUL in string-table entries; premise: item < 4 GiB)
++ the pre-repair witness F13a as regression documentation.
 hostile tier (here; shared machinery for the text part lives in this file too): the REAL
 osmium::io::Reader (harness/c03.cpp) built with ASan+UBSan, once with -DNDEBUG and once with
 assertions, alarm(10) watchdog, every delivered object traversed twice (a GUARDED walk that checks
@@ -20,6 +21,10 @@ own iterators/accessors).  Inputs:
 For inputs in the modelled format (raw blobs) the outcome CLASS (objects / error) of both builds
 must equal `model_pbf dec`; a sanitizer report, failed assertion, crash, watchdog timeout, guarded
 walk hit or non-std exception is a violation with the (shrunk) input as replay.
+Regression probes (corpus/C03/pbf_findings.ops, REGRESSIONS below): the inputs of the repaired findings
+da64936 / 0285409 must give pbf_error; anything else = REGRESSION of the fix with the input.
+Item-size probe (`start_big_item_probe`): one 4 KiB file whose node becomes an item of more than 4 GiB,
+on a build without sanitizers (skipped below 12 GB of available memory).
 """
 import concurrent.futures
 import copy
@@ -53,6 +58,17 @@ def build_harnesses(ctx):
             return None
         builds.append((name, '0' if nd else '1', hbin))
     return builds
+
+
+def tick(ctx, label, _state={}):
+    """wall-clock bookkeeping per stage (evidence: extra.c03_seconds)"""
+    import time
+    now = time.time()
+    if 'last' in _state:
+        d = ctx.extra.setdefault('c03_seconds', {})
+        d[_state['label']] = round(d.get(_state['label'], 0) + now - _state['last'], 1)
+    _state['last'] = now
+    _state['label'] = label
 
 
 HENV = dict(os.environ, ASAN_OPTIONS='detect_leaks=0:abort_on_error=0:allocator_may_return_null=1:max_allocation_size_mb=2048:max_malloc_fill_size=67108864:malloc_fill_byte=190',
@@ -152,6 +168,36 @@ def finding_key(fmt, sig, stderr, data, out=None):
     return '%s-crash:%s' % (fmt, sig)
 
 
+# The findings of this property that were repaired in /repo: their minimal inputs are REGRESSION PROBES
+# (corpus/C03/*_findings.ops: `<hex> <stable key> <expected outcome>`).  A crash / guarded-walk hit on any
+# input whose root cause maps to one of these keys, or another outcome than the expected one on a probe
+# input, is reported under the stable key with this text.
+REGRESSIONS = {
+    'pbf-embedded-nul-tag': 'REGRESSION of fix da64936 (DESIGN.md F13a): PBF decode_stringtable lets a string-table entry with an embedded '
+                            'NUL byte through; a tag key "a\\0b" desynchronises Tag::next() and the tag walk leaves the TagList',
+    'pbf-blobheader-without-type': 'REGRESSION of fix 0285409: a BlobHeader without type field makes the PBF reader call '
+                                   'strncmp(expected, nullptr, 0) (null pointer passed to a nonnull parameter)',
+    'xml-comment-without-text': 'REGRESSION of fix 5690f83 (F13b): XML <comment> without <text> leaves an unpadded ChangesetComment in the '
+                                'buffer (the discussion walk leaves the item; assertion in debug builds)',
+    'xml-comment-with-two-texts': 'REGRESSION of fix 5690f83: a second <text> in one <comment> calls add_comment_text() without a pending comment '
+                                  '(write through item_pos() + size_t(-1); assertion in debug builds)',
+    'xml-comment-pending-at-error': 'REGRESSION of fix 5690f83: an error / the end of the document inside an open <comment> hits the assertion in '
+                                    '~ChangesetDiscussionBuilder instead of surfacing as an exception',
+    'xml-user-too-long': 'REGRESSION of fix bc6b907 (F13c): set_user() accepts an XML user attribute longer than max_osm_string_length '
+                         '(assertion at 65535 bytes; NDEBUG: length truncated to 16 bits, 65535 wraps user_size to 0 and sub-items are searched inside the name)',
+    'opl-user-too-long': 'REGRESSION of fix bc6b907 (F13c): set_user() accepts an OPL user name longer than max_osm_string_length '
+                         '(assertion at 65535 bytes; NDEBUG: length truncated to 16 bits)',
+}
+
+
+def probe_matches(expected, out):
+    """expected: `ok`, `err` (any exception class) or the exact first token, e.g. `err:pbf_error`"""
+    first = out.split(' ')[0]
+    if expected == 'err':
+        return first.startswith('err:')
+    return first == expected
+
+
 def byte_mutations(rng, data, n, interesting=(0, 1, 0x7f, 0x80, 0xff, 0xfe, 0x0a, 0x20)):
     out = []
     if not data:
@@ -227,7 +273,9 @@ def hostile_run(ctx, part, fmt, builds, inputs, model_fn, types=23, probes=None,
     for lab, _ in inputs:
         ctx.count('%s-hostile-input:%s' % (part, re.split(r'[=@#]', lab)[0]))
     ctx.extra['%s_hostile_inputs' % part] = len(inputs)
+    tick(ctx, part + ':model')
     model = model_fn([d for _, d in inputs])
+    tick(ctx, part + ':harness')
     comps = []
     if comp_sample:
         step = max(len(inputs) // comp_sample, 1)
@@ -238,7 +286,9 @@ def hostile_run(ctx, part, fmt, builds, inputs, model_fn, types=23, probes=None,
         clines = ['rd %s %s %s %d %s' % (aflag, fmt, c, types, inputs[i][1].hex() or '-') for i, c in comps]
         for l in lines + clines:
             ctx.note_case(l)
+        tick(ctx, part + ':harness')
         res = run_harness(hbin, lines + clines)
+        tick(ctx, part + ':evaluate')
         ctx.sample(lines[len(lines) // 2][:160])
         cres = res[len(lines):]
         res = res[:len(lines)]
@@ -248,16 +298,24 @@ def hostile_run(ctx, part, fmt, builds, inputs, model_fn, types=23, probes=None,
         for i, ((lab, d), line, mod, (out, crash)) in enumerate(zip(inputs, lines, model, res)):
             ctx.count('%s-hostile-model-outcome:%s' % (part, mod))
             if crash is not None or (out is not None and (out.startswith('OOB:') or out == 'NONSTD')):
-                report(ctx, part, fmt, types, bname, aflag, hbin, lab, d, line, mod, out, crash)
+                report(ctx, part, fmt, types, bname, aflag, hbin, lab, d, line, mod, out, crash,
+                       probe=probes.get(d) if probes else None)
                 continue
             if out is None:
                 continue
             cls = 'ok' if out.startswith('ok') else 'err'
             ctx.count('%s-hostile-impl-outcome:%s' % (part, out.split(' ')[0] if cls == 'err' else 'ok'))
-            if probes and d in probes and probes[d][1] != cls:
-                ctx.violation(probes[d][0], 'regression probe %s: real Reader (%s) gives `%s`, expected class `%s`'
-                              % (probes[d][0], bname, out[:160], probes[d][1]), {'kind': 'counterexample', 'op': line[:30000], 'impl': out[:2000]})
-                continue
+            if probes and d in probes:
+                ctx.count('%s-regression-probe:%s' % (part, probes[d][0]))
+                if not probe_matches(probes[d][1], out):
+                    key = probes[d][0]
+                    if not any(v.key == key for v in ctx.violations):
+                        ctx.violation(key, '%s — regression probe: real Reader (%s) gives `%s` on the %d-byte input of the finding, the repaired code gives `%s`'
+                                      % (REGRESSIONS.get(key, 'regression probe ' + key), bname, out[:160], len(d), probes[d][1]),
+                                      {'kind': 'counterexample', 'op': line if len(line) < 60000 else line[:60000] + '…', 'impl': out[:2000],
+                                       'expected': probes[d][1], 'build': bname,
+                                       'replay': 'echo "<op>" | <harness/c03.cpp built as %s>' % bname})
+                    continue
             if mod is not None and mod != cls:
                 why = outside_model(d, mod, cls, out) if outside_model else None
                 if why:
@@ -291,9 +349,11 @@ def hostile_run(ctx, part, fmt, builds, inputs, model_fn, types=23, probes=None,
     return inputs, outcomes
 
 
-def report(ctx, part, fmt, types, bname, aflag, hbin, lab, d, line, mod, out, crash, shrinkable=True):
+def report(ctx, part, fmt, types, bname, aflag, hbin, lab, d, line, mod, out, crash, shrinkable=True, probe=None):
     sig = crash_signature(crash) if crash is not None else out
     key = finding_key(fmt, sig, crash['stderr'] if crash else '', d, out)
+    if probe is not None and not key.split(':')[0] in REGRESSIONS:
+        key = probe[0]
     ctx.count('%s-hostile-hit:%s:%s' % (part, bname, key))
     if any(v.key == key for v in ctx.violations):
         return
@@ -315,6 +375,10 @@ def report(ctx, part, fmt, types, bname, aflag, hbin, lab, d, line, mod, out, cr
     sline = 'rd %s %s none %d %s' % (aflag, fmt, types, small.hex() or '-')
     what = ('real Reader (%s, ASan+UBSan%s) on a %d-byte %s input (mutation %s; shrunk to %d bytes): %s; the model predicted `%s`'
             % (bname, ', -DNDEBUG' if aflag == '0' else ', assertions on', len(d), fmt, lab, len(small), sig, mod))
+    if key in REGRESSIONS:
+        what = REGRESSIONS[key] + ' — ' + what
+    if probe is not None:
+        what += '; regression probe, the repaired code gives `%s`' % probe[1]
     rep = {'kind': 'counterexample', 'op': sline if len(sline) < 60000 else sline[:60000] + '…', 'build': bname, 'mutation': lab,
            'original_len': len(d), 'model': mod,
            'replay': 'echo "<op>" | <harness/c03.cpp built as %s>' % bname}
@@ -842,6 +906,84 @@ def lazy_tail(data):
     return False
 
 
+# ---- item size > 4 GiB -------------------------------------------------------------------------------------
+# A PrimitiveBlock of at most 32 MiB may reference the same two 1024-byte strings millions of times: one node
+# with N tags becomes an item of 8 + N * 2050 bytes.  Item sizes are 32 bit (`item_size_type`); the theorems of
+# Props/C03Pbf.lean carry exactly this premise (`objSize … < 2^32`).  Probe: N = 2 100 000 (4.3 GB object) from a
+# 4 KiB file with a zlib blob, on a build WITHOUT sanitizers (ASan refuses allocations of that size and aborts
+# in operator new — an artefact of the tool), guarded walk as the monitor.  Needs ~9 GB of memory for ~10 s.
+BIG_TAGS = 2096000
+
+
+def big_item_file():
+    strings = [b'', b'k' * 1024, b'v' * 1024]
+    node = M(1, [S(1, 1), B(2, b'\x01' * BIG_TAGS), B(3, b'\x02' * BIG_TAGS), S(8, 10), S(9, 20)])
+    block = [M(1, [B(1, s) for s in strings]), M(2, [node])]
+    return frame(b'OSMHeader', ser([B(4, b'OsmSchema-V0.6')])) + frame(b'OSMData', ser(block), zl=True)
+
+
+def mem_available_gb():
+    try:
+        with open('/proc/meminfo') as fh:
+            for l in fh:
+                if l.startswith('MemAvailable:'):
+                    return int(l.split()[1]) / 1048576.0
+    except OSError:
+        pass
+    return 0.0
+
+
+def start_big_item_probe(ctx):
+    """runs in a thread next to the hostile tier; returns a function that joins it and reports"""
+    import threading
+    import vlib
+    state = {}
+    need = 12.0
+    avail = mem_available_gb()
+    if avail < need:
+        ctx.count('pbf-big-item-probe:skipped-memory')
+        ctx.assumptions.append('pbf item-size probe (object > 4 GiB) SKIPPED: %.1f GB of memory available, %.0f GB wanted' % (avail, need))
+        return lambda: None
+    hbin, err = vlib.build_cpp('c03_plain_n', ['c03.cpp'], asan=False, ndebug=True, flags=['-fno-access-control'])
+    if hbin is None:
+        ctx.violation('c03-harness-build', 'plain hostile harness does not compile: ' + err[-600:], {'kind': 'harness-build', 'stderr': err}, found_input=False)
+        return lambda: None
+    data = big_item_file()
+    line = 'rdbig 0 pbf none 7 ' + data.hex()
+
+    def work():
+        try:
+            state['res'] = _run_chunk(hbin, [line])
+        except Exception as e:      # noqa: BLE001
+            state['exc'] = repr(e)
+
+    th = threading.Thread(target=work)
+    th.start()
+
+    def finish():
+        th.join()
+        ctx.note_case(line)
+        if 'exc' in state:
+            raise RuntimeError('big item probe failed: ' + state['exc'])
+        rc, outs, se = state['res']
+        out = outs[0] if outs else None
+        ctx.count('pbf-big-item-probe:%s' % (out.split(' ')[0][:40] if out else 'rc%s' % rc))
+        ctx.extra['pbf_big_item_probe'] = {'file_bytes': len(data), 'tags': BIG_TAGS, 'object_bytes': 8 + BIG_TAGS * 2050, 'outcome': (out or 'rc%s' % rc)[:80]}
+        if out is not None and out.startswith('err:'):
+            return          # refused with an exception (std::length_error after the repair, std::bad_alloc on small machines)
+        what = ('PBF file of %d bytes (zlib blob; one node with %d tags that reference two 1024-byte strings): the builders write an item of '
+                '%d bytes, its 32-bit size field (Item::add_size via Builder::add_size, no overflow check) wraps and the real Reader '
+                '(build without sanitizers, -DNDEBUG) delivers the object; guarded walk: `%s`%s — the object cannot be traversed inside its item '
+                '(the premise `objSize < 2^32` of pbf_decoded_objects_wf is not established by the code)'
+                % (len(data), BIG_TAGS, 8 + BIG_TAGS * 2050, out, '' if out else ' rc %s %s' % (rc, se[-300:])))
+        ctx.violation('pbf-item-size-32bit-wrap', what,
+                      {'kind': 'counterexample', 'op': line, 'impl': (out or '')[:300], 'rc': rc, 'stderr': se[-2000:],
+                       'replay': 'echo "<op>" | <harness/c03.cpp built with -DNDEBUG, no sanitizers>; needs ~9 GB of memory',
+                       'proposed_fix': '/verif/.build/proposed_fixes/C03-item-size-32bit-wrap.diff'})
+
+    return finish
+
+
 def model_classes(ctx, datas, modelled):
     """model_pbf dec -> 'ok' / 'err' (None where not modelled)"""
     idx = [i for i, d in enumerate(datas) if modelled[i]]
@@ -873,6 +1015,7 @@ def has_compressed_blob(label):
 def run_part(ctx):
     rng = ctx.rng
     quick = ctx.tier == 'quick'
+    tick(ctx, 'pbf:generate')
     ctx.assumptions.append('pbf hostile tier: memory safety of the COMPILED code is established only for the inputs run (sanitizers), not proved; '
                            'UBSan without signed-integer-overflow (delta decoding wraps by design); zlib/lz4/protozero/allocator internals are outside the model')
     builds = build_harnesses(ctx)
@@ -881,6 +1024,7 @@ def run_part(ctx):
     if not ctx.exe_build_ok:
         ctx.violation('pbf-model-driver-build', 'model_pbf / model_c03 do not build', {'kind': 'broken-correspondence'}, found_input=False)
         return
+    finish_big = start_big_item_probe(ctx)
     inputs = []
     modelled = {}
     probes = {}
@@ -895,7 +1039,7 @@ def run_part(ctx):
                             w = l.split(' ', 2)
                             d = bytes.fromhex(w[0]) if w[0] != '-' else b''
                             inputs.append(('corpus:' + fn, d))
-                            if len(w) == 3 and w[2] in ('ok', 'err'):
+                            if len(w) == 3:
                                 probes[d] = (w[1], w[2])
     nbase = 14 if quick else 80
     budget = 420 if quick else 1500
@@ -945,3 +1089,6 @@ def run_part(ctx):
         return 'lazy-decoding' if mod == 'err' and cls == 'ok' and lazy_tail(d) else None
 
     hostile_run(ctx, 'pbf', 'pbf', builds, inputs, model_fn, types=7, probes=probes, comp_sample=40 if quick else 400, outside_model=outside)
+    tick(ctx, 'pbf:big-item-probe')
+    finish_big()
+    tick(ctx, 'pbf:done')
